@@ -489,6 +489,7 @@ pub fn run_mode(opts: &Options, prop: &str) -> Report {
         // answers of the filter protocol are dropped until the proof has moved the stored tip
         // (the client asks again), so that the reorganisation finds the filter sync moved back
         let mut hold_filters = false;
+        let mut restarted_once = false;
         let mut extra_registered = false;
         let mut seen_switch = false;
         // the writes of the steps are counted (the first start and set_scripts have their own
@@ -619,6 +620,7 @@ pub fn run_mode(opts: &Options, prop: &str) -> Report {
                                 let volatile_empty = node.i().peers.matched_blocks().read().unwrap().is_empty();
                                 in_lc_delivery.set(rp == SupportProtocols::LightClient.protocol_id());
                                 let sites_before = sites.borrow().len();
+                                let saved_filters = if prop == "C09" && kind == "BlockFilters" { Some(bytes.clone()) } else { None };
                                 if let Err(e) = catch(|| node.deliver(p, rp, bytes)) {
                                     aborted = Some(e);
                                     break 'steps;
@@ -700,6 +702,89 @@ pub fn run_mode(opts: &Options, prop: &str) -> Report {
                                 // also before it (a low number moves the filter sync back below
                                 // blocks that stay indexed: a fork in that window must still roll
                                 // them back)
+                                // C09: the client is restarted while the record of this batch is pending
+                                // (the in-memory matched blocks are empty until the filter timer reads
+                                // the record again); the peer is proved again by the refresh timer
+                                // alone, and the same - now stale - BlockFilters answer arrives once
+                                // more: nothing may be claimed for blocks that wait in the record
+                                if let Some(stale) = saved_filters {
+                                    let pending = !after.records.is_empty();
+                                    if pending && !restarted_once && fnv(&format!("{}:{}:restart", seed, lines.len())) % 3 == 0 {
+                                        restarted_once = true;
+                                        rep.count_op("restart-then-stale-filters");
+                                        let r = catch(|| {
+                                            node.restart();
+                                            node.connect(p);
+                                            // the peer is proved for the stored tip again (the state a proof
+                                            // exchange ends in; with an unchanged chain the client itself would
+                                            // not ask for one)
+                                            let ch = &branches[peer_branch.get(p.value()).copied().unwrap_or(serving)].chain;
+                                            let tip = node.i().storage.get_tip_header().calc_header_hash();
+                                            if let Some(n) = ch.number_of_hash(&tip) {
+                                                use crate::protocols::light_client::{LastState, ProveRequest, ProveState};
+                                                let vh: ckb_types::utilities::merkle_mountain_range::VerifiableHeader = ch.verifiable_header(n).into();
+                                                let ls = LastState::new(vh);
+                                                let peers = std::sync::Arc::clone(&node.i().peers);
+                                                let r1 = true; // `connected` has requested the last state already
+                                                let r2 = peers.update_last_state(p, ls.clone()).is_ok();
+                                                let req = ProveRequest::new(ls, Default::default());
+                                                let r3 = peers.update_prove_request(p, req.clone()).is_ok();
+                                                let r4 = peers.update_prove_state(p, ProveState::new_from_request(req, vec![], vec![])).is_ok();
+                                                if debug {
+                                                    eprintln!("  proved directly: {} {} {} {}", r1, r2, r3, r4);
+                                                }
+                                            }
+                                        });
+                                        if let Err(e) = r {
+                                            aborted = Some(e);
+                                            break 'steps;
+                                        }
+                                        let before2 = observe_all(&node, branches, serving);
+                                        let ve2 = node.i().peers.matched_blocks().read().unwrap().is_empty();
+                                        if let Err(e) = catch(|| node.deliver(p, rp, stale)) {
+                                            aborted = Some(e);
+                                            break 'steps;
+                                        }
+                                        let after2 = observe_all(&node, branches, serving);
+                                        if debug {
+                                            eprintln!(
+                                                "  restart + stale filters: proved {} volatile-empty {} start {:?}: {} => {}",
+                                                node.i().peers.get_state(&p).map(|s| s.get_prove_state().is_some()).unwrap_or(false),
+                                                ve2,
+                                                start,
+                                                show_obs(&before2),
+                                                show_obs(&after2)
+                                            );
+                                        }
+                                        if ve2 {
+                                            rep.count_class("stale-filters-with-the-record-not-yet-recovered");
+                                        }
+                                        if let Some(op) = model_op_after(&before2, &after2, &kind, start, ve2) {
+                                            lines.push(op);
+                                            impls.push(String::new());
+                                            lines.push("dump".into());
+                                            impls.push(show_obs(&after2));
+                                        }
+                                        // no overclaim: a matched block that waits in a record is at or
+                                        // below no script's number
+                                        let (facts_now, _) = index_dump(&node);
+                                        for (_, _, nums) in after2.records.iter() {
+                                            for b in nums {
+                                                // (the three scripts registered from 0; a block that touches the script)
+                                                if let Some((sid, n)) = after2.scripts.iter().find(|(sid, n)| {
+                                                    **sid <= N_SCRIPTS && **n >= *b && *b != 999_999 && *b > reg_start && branches[serving].facts.iter().any(|f| f.0 == **sid && f.1 == *b)
+                                                        && !facts_now.iter().any(|f| f.0 == **sid && f.1 == *b)
+                                                }) {
+                                                    rep.violate(
+                                                        "C09|overclaim|stale-filters-after-restart",
+                                                        "get_scripts reports a script as filtered up to a height at or above a block that touches it, is not indexed and is still waiting in a record",
+                                                        replay(format!("# after a restart and a stale BlockFilters answer: script {} reports {} but block {} waits in a record", sid, n, b)),
+                                                    );
+                                                }
+                                            }
+                                        }
+                                    }
+                                }
                                 let with_cmds = prop == "C09" || (prop == "C04" && cmd_seeds.contains(seed));
                                 if with_cmds && cmd_rng.chance(if seen_switch || prop == "C04" { 1 } else { 0 }, 4) {
                                     let low = cmd_rng.range(0, 12);
